@@ -6,19 +6,17 @@ From Interval Require Import Tactic.
 From SpdVerif Require Import Base.Rx Base.Vec3 Gen.Idler Model.Idler Proofs.C03_base Proofs.C03_idler.
 Local Open Scope R_scope.
 
-(* the model's stored idler polar angle for a non-negative signal angle: characterised by its sine, the sign of its cosine,
-   and its range (for a negative signal angle the sign of the sine depends on the extra signum of the source: see
-   Proofs/C03_sign.v, and props/c03.py which reads the generated definition to know which sign to expect) *)
-Lemma theta_case_sound cp ths v : 0 < cos ths -> 0 <= ths -> Rabs v <= 1 ->
+(* the model's stored idler polar angle: characterised by its sine, the sign of its cosine, and its range *)
+Lemma theta_case_sound cp ths v : 0 < cos ths -> Rabs v <= 1 ->
   let tm := beam_new_theta (idler_theta cp ths v) in
   sin tm = v /\ cos tm = (if cp then -1 else 1) * sqrt (1 - v²) /\ - PI < tm <= PI.
 Proof.
-  intros Hc H0 Hv' tm. assert (Hv : -1 <= v <= 1) by (unfold Rabs in Hv'; destruct (Rcase_abs v); lra).
+  intros Hc Hv' tm. assert (Hv : -1 <= v <= 1) by (unfold Rabs in Hv'; destruct (Rcase_abs v); lra).
   unfold tm. change beam_new_theta with normalize_angle_signed.
   destruct (normalize_angle_signed_congr (idler_theta cp ths v)) as [k Hk].
   split; [|split].
-  - rewrite Hk, sin_period_Z. apply idler_theta_sin_nonneg; assumption.
-  - rewrite Hk, cos_period_Z. apply idler_theta_cos_nonneg; assumption.
+  - rewrite Hk, sin_period_Z. apply idler_theta_sin; assumption.
+  - rewrite Hk, cos_period_Z. apply idler_theta_cos; assumption.
   - apply normalize_angle_signed_range.
 Qed.
 
